@@ -43,7 +43,7 @@ ASSUMPTIONS = [
     "mapping-valued operands, $where and keys containing '$' or '.' are outside the documented grammar",
 ]
 
-UNIVERSE = [0, 1, 2, -1, 1.0, 2.5, 1.005, 1.0000000001, True, False, None, "1", "ab", "abc", "", "a/b/", "/ab", [{"x": 1, "y": 2}], [{"y": 2, "x": 1}], [1, 2], [1.0, 2], [], {"x": 1}]
+UNIVERSE = [0, 1, 2, -1, -1.0, -2, -2.0, 1.0, 2.5, 1.005, 1.0000000001, True, False, None, "1", "ab", "abc", "", "a/b/", "/ab", [{"x": 1, "y": 2}], [{"y": 2, "x": 1}], [1, 2], [1.0, 2], [], {"x": 1}]
 SCALAR_U = [v for v in UNIVERSE if not isinstance(v, dict)]
 SP_KEYS = ["a", "b", "n", "l", "spec"]  # "spec": a key that merely starts like the "sp" namespace
 DOC_KEYS = ["a", "d", "s", "docs"]  # "docs": starts like the "doc" namespace
